@@ -312,7 +312,30 @@ fn do_propagate_fallback_levels(
                 )
             }
         }
-        Expr::NontermRef { .. } | Expr::Command { .. } => expr_id,
+        Expr::NontermRef { fallback, .. } if fallback == fallback_level => expr_id,
+        Expr::NontermRef { nonterm, span, .. } => alloc(
+            arena,
+            Expr::NontermRef {
+                nonterm,
+                fallback: fallback_level,
+                span,
+            },
+        ),
+        Expr::Command { fallback, .. } if fallback == fallback_level => expr_id,
+        Expr::Command {
+            cmd,
+            zsh_compadd,
+            span,
+            ..
+        } => alloc(
+            arena,
+            Expr::Command {
+                cmd,
+                zsh_compadd,
+                fallback: fallback_level,
+                span,
+            },
+        ),
         Expr::Sequence { children, span } => {
             let new_children: Vec<ExprId> = children
                 .iter()
